@@ -207,7 +207,7 @@ int config::root::remove(const path *dest)
 		return BadOperation;
 	}
 	curr->resize(0); // remove childen from element
-	curr->set_name(0); // mark element as unused
+	curr->set_name(0, 0); // mark element as unused
 	curr->set_instance(0); // remove element data
 	
 	return 0;
